@@ -223,7 +223,8 @@ def extra_cases(rs, tier):
                 cases.append({'routine': r, 'A': A.tolist(), 'itr': int(rs.choice([1, 2, 3])), 'seed': seed(), 'D': D.tolist(),
                               'Dkind': 'asymmetric', 'kind': 'asym-D'})
     # (c) connected inputs WITHOUT two vertex-disjoint edges (stars, the 3-node path, the triangle): nothing can be rewired and the
-    #     `while True` loop that draws two edges on four distinct nodes never ends. Short watchdog, no retry.
+    #     `while True` loop that draws two edges on four distinct nodes could never end: the routines must reject them (BCTParamError).
+    #     Short watchdog, no retry.
     for r in ROUTINES:
         und = r in rc.UND
         for _ in range(4 if not big else 12):
@@ -631,9 +632,9 @@ def main():
                        'hypotheses cannot be dropped; the same predicates on inputs without self-loops / with symmetric D remain plain violations',
                        'masks are arbitrary 0/1 matrices (symmetric, asymmetric, one-sided); no symmetry assumption on the mask',
                        'integer weights, stored as float64 / float32 / int64 / int32 / uint8 / bool, C or Fortran order or transposed view',
-                       'inputs without two vertex-disjoint edges (stars, path3, K3) are inside the quantifier ("trees") and make every routine hang in its '
-                       'unbudgeted edge pick: generated with a 1 s watchdog and reported as the open known findings C11-no-disjoint-edge-pair-hangs-*; '
-                       'all other generated inputs hold two vertex-disjoint edges',
+                       'inputs without two vertex-disjoint edges (stars, path3, K3) are inside the quantifier ("trees"): nothing can be rewired, and the '
+                       'routines must say so (BCTParamError from the guard before the loops, within a 1 s watchdog; the model has the same guard); a hang '
+                       'there is the violation does-not-return; all other generated inputs hold two vertex-disjoint edges',
                        'connectivity clause is evaluated on connected (undirected) / strongly connected (directed) inputs only',
                        'rejection clause: Props/C11.precheck_rejects / precheck_ok are about Model/RewirePre.precheck (allclose -> equality on integer input, '
                        'number_of_components = the C16 model); the malformed stream and every well-formed call of the two undirected _connected routines go through '
@@ -702,8 +703,9 @@ def main():
                 nontrivial_key=digest([rt, c['A'], c.get('itr'), c.get('D'), c.get('B'), r['draws']]) if moved else None)
         if r['status'] == 'timeout':
             # the attempt budget bounds the rewiring attempts, but the inner `while True` edge pick is unbounded: it ends (with probability 1,
-            # in a few draws) iff the edge list holds two entries on four distinct nodes. A timeout is a verdict when it survived the 10x
-            # retry, and for the no-pickable-pair family (open known finding C11-no-disjoint-edge-pair-hangs-*).
+            # in a few draws) iff the edge list holds two entries on four distinct nodes - which the routines now test before the loops
+            # (BCTParamError otherwise). A timeout is a verdict when it survived the 10x retry, and at once for the no-pickable-pair
+            # family (1 s): those inputs must be rejected, not looped on.
             if rt != 'partial_und' or c.get('no_retry') or r.get('retried'):
                 ck.violation(rt, 'does-not-return', {'case': c}, cond_of(c))
             else:
@@ -712,10 +714,17 @@ def main():
         if r.get('retried'):
             ck.count('returned-after-retry')
         if r['status'] == 'exc':
-            if exc_kind(r['exc']) == 'BCTParamError' and not has_pickable_pair(c):
-                ck.count('rejected:no-rewirable-pair')     # a clean rejection of an input on which nothing can be rewired (not the current behaviour)
+            if exc_kind(r['exc']) == 'BCTParamError' and not has_pickable_pair(c) and c.get('itr', 0) > 0:
+                # nothing can be rewired: the guard `if itr > 0 and not _has_rewirable_pair(i, j): raise BCTParamError` (the model has it too)
+                ck.count('rejected:no-rewirable-pair')
+                ck.case(sample=None, nontrivial_key=digest(['no-pair', rt, c['A']]))
+                lines.append(rc.lean_line(c, r)); idx.append(n_)
             else:
                 ck.violation(rt, 'raises', {'case': c, 'exception': r['exc']}, cond_of(c))
+            continue
+        if not has_pickable_pair(c) and c.get('itr', 0) > 0:
+            # returned although no two listed connections have four distinct end nodes: impossible for a correct edge-pair draw
+            ck.violation(rt, 'no-rewirable-pair-not-rejected', {'case': c, 'output': r.get('R')}, cond_of(c))
             continue
         if rt in rc.CONN:
             ck.count('conn-input:%s' % r['extra'].get('in_conn'))
